@@ -28,7 +28,7 @@ type params struct {
 var kinds = []string{"cq", "batch", "alias", "handover", "mix", "reassign", "cq", "batch", "mix", "mix"}
 
 func cases(tier string, seed int64) []fw.Case {
-	n, steps := 24, 70
+	n, steps := 30, 70
 	if tier == "thorough" {
 		n, steps = 240, 160
 	}
